@@ -127,6 +127,10 @@ func (x *Exec) callValue(st *State, fv SVal, sig *types.Signature, args []SVal, 
 	rs := sig.Results()
 	for i := 0; i < rs.Len(); i++ {
 		t := x.D.app(fmt.Sprintf("%s!%d", short, i), ats, asorts, sortOf(rs.At(i).Type()))
+		if isContextType(rs.At(i).Type()) {
+			// T5: a context-aware user callback returns a (derived) non-nil context
+			st.assume(not(eq(t, "nil")))
+		}
 		res = append(res, x.unbox(st, t, rs.At(i).Type()))
 	}
 	ev := Event{Name: "callfn:" + short, Args: args, Res: res, Pos: pos}
@@ -421,6 +425,7 @@ func (x *Exec) static(st *State, fn *ssa.Function, c *ssa.CallCommon, args []SVa
 		return
 	case pkg == "context" && name == "WithValue":
 		t := x.D.app("ctx_WithValue", []string{x.termOf(st, args[0]), x.termOf(st, args[1]), x.termOf(st, args[2])}, []string{"U", "U", "U"}, "U")
+		st.assume(not(eq(t, "nil")))
 		ret(SVal{K: KU, T: t, GoT: fn.Signature.Results().At(0).Type()})
 		return
 	}
